@@ -435,7 +435,7 @@ class CorpusCrate:
             mods_src, arms, ranges = [], [], []
             line = MAIN_TMPL[:MAIN_TMPL.index("%(mods)s")].count("\n") + 1 + self.crate_attrs.count("\n") + (1 if self.crate_attrs else 0)
             for k in ks:
-                src = "pub mod m%d {\n#![allow(dead_code, unused_imports, unused_variables, unused_mut, non_camel_case_types, non_snake_case, unreachable_patterns, unused_parens, deprecated)]\nuse super::hp::*;\n%s\n}\n" % (k, self.mods[k])
+                src = "pub mod m%d {\n#![allow(dead_code, unused_imports, unused_variables, unused_mut, non_camel_case_types, non_snake_case, unreachable_patterns, unused_parens, deprecated, arithmetic_overflow)]\nuse super::hp::*;\n%s\n}\n" % (k, self.mods[k])
                 n = src.count("\n")
                 ranges.append((line, line + n - 1, k))
                 line += n
